@@ -3,6 +3,7 @@ From Coq Require Import List NArith Bool Lia Arith.
 Import ListNotations.
 Open Scope N_scope.
 Require Import Scan.
+Require Repl Tables.
 
 Fixpoint str_eqb (a b : str) : bool :=
   match a, b with [], [] => true | x :: a', y :: b' => (x =? y) && str_eqb a' b' | _, _ => false end.
@@ -28,30 +29,13 @@ Fixpoint join_with (sep : str) (l : list str) : str :=
 Fixpoint split_on (c : rune) (l : str) (cur : str) : list str :=
   match l with [] => [rev cur] | x :: r => if x =? c then rev cur :: split_on c r [] else split_on c r (x :: cur) end.
 
-Definition html_escape (s : str) : str :=
-  flat_map (fun c => if c =? 38 then [38;97;109;112;59]           (* &amp; *)
-                     else if c =? 60 then [38;108;116;59]           (* &lt; *)
-                     else if c =? 62 then [38;103;116;59]           (* &gt; *)
-                     else if c =? 39 then [38;35;51;57;59]          (* &#39; *)
-                     else if c =? 34 then [38;35;51;52;59]          (* &#34; *)
-                     else [c]) s.
+(* html.EscapeString, escape.LaTeX/Roff/Markdown: strings.Replacer over the tables regenerated from the source *)
+Definition html_escape (s : str) : str := Repl.enc Tables.html_table s.
 
 Definition contains_space (s : str) : bool := existsb is_space s.
 
-(* strings.Replacer with single-rune keys *)
-Definition repl (tbl : list (rune * str)) (s : str) : str :=
-  flat_map (fun c => match find (fun p => fst p =? c) tbl with Some p => snd p | None => [c] end) s.
-Definition latex_tbl : list (rune * str) :=
-  [ (123, [92;123]); (125, [92;125]); (91,[91]); (93,[93]); (37,[92;37]); (38,[92;38]);
-    (36,[92;36]); (35,[92;35]); (95,[92;95]); (94,[92;94;123;125]);
-    (92,[92;116;101;120;116;98;97;99;107;115;108;97;115;104;123;125]);
-    (126,[92;126;123;125]); (160,[126]) ].
-Definition roff_tbl : list (rune * str) :=
-  [ (34,[92;40;100;113]); (8230,[46;46;46]); (39,[92;40;99;113]); (46,[92;38;46]); (92,[92;101]); (160,[92;126]) ].
-Definition markdown_tbl : list (rune * str) :=
-  [ (42,[92;42]); (96,[92;96]); (95,[92;95]); (35,[92;35]); (91,[92;91]); (62,[92;62]); (93,[92;93]); (126,[92;126]); (92,[92;92]) ].
-Definition latex_escape := repl latex_tbl.
-Definition roff_escape := repl roff_tbl.
-Definition markdown_escape := repl markdown_tbl.
+Definition latex_escape := Repl.enc Tables.latex_table.
+Definition roff_escape := Repl.enc Tables.roff_table.
+Definition markdown_escape := Repl.enc Tables.markdown_table.
 Definition latex_percent (s : str) : str := flat_map (fun c => if c =? 37 then [92;37] else [c]) s.
 Definition contains_any (chars s : str) : bool := existsb (fun c => existsb (N.eqb c) chars) s.
